@@ -81,6 +81,8 @@ def gen_params(ctx):
             force["nx"] = max(force.get("nx", 0), int(rng.integers(16, 24)))
         p = calib.random_params(rng, False, quick=True, **force)
         out.append(p)
+    for k in range(3 if ctx.quick else 30):  # matching sections across splices, tuples in any order
+        out.append(calib.random_params(rng, False, quick=True, nta=int(rng.integers(1, 3)), nmatch=2, nx=int(rng.integers(20, 28)), noise=0.01, nt=int(rng.integers(1, 3))))
     # scale family: the same construction from 10 m to 10 km
     base = calib.random_params(rng, False, quick=True, nmatch=0, noise=0.01, nta=0, nt=1)
     for span in ([10.0, 1000.0, 10000.0] if ctx.quick else [10.0, 100.0, 1000.0, 3000.0, 10000.0]):
